@@ -19,8 +19,10 @@
 (* whole table).  While a key beyond a hole exists #t has several borders, so   *)
 (* list calls are outside the domain until it is cleared (setx(k, nil)).        *)
 (* fill(n,a,m) stands for  for k=1,n do t[k] = (a*k)%m end  on an empty list.    *)
-(* Unspecified choices are explicit: table.remove on an empty list may      *)
-(* return nothing or nil; the result of sort is ANY admissible permutation. *)
+(* insert and remove accept EVERY integer position as ltablib.c does (the    *)
+(* property's statement covers 1..n+1 / 1..n; outside it the reference       *)
+(* transcription decides).  Unspecified choices are explicit: insert at      *)
+(* pos <= 0 (see Posts); the result of sort is ANY admissible permutation.   *)
 (***************************************************************************)
 EXTENDS Integers, Sequences, FiniteSets, TLC
 
@@ -60,9 +62,10 @@ RemoveAt(xs, pos) == SubSeq(xs, 1, pos - 1) \o SubSeq(xs, pos + 1, Len(xs))
 ListDomain(xs, o) ==
     LET n == Len(xs) IN
     CASE o.op = "ins_end" -> TRUE
-      [] o.op = "ins"     -> o.pos >= 1 /\ o.pos <= n + 1 /\ (o.v = Nil => o.pos = n + 1)
+      [] o.op = "ins"     -> (o.v = Nil => o.pos >= n + 1)     \* every integer position (the statement's core: 1..n+1)
+      [] o.op = "insx"    -> TRUE                             \* table.insert with more than three arguments
       [] o.op = "rem_end" -> TRUE
-      [] o.op = "rem"     -> o.pos >= 1 /\ o.pos <= n
+      [] o.op = "rem"     -> TRUE                             \* every integer position (the statement's core: 1..n)
       [] o.op = "set"     -> \/ (o.i >= 1 /\ o.i <= n /\ o.v # Nil)
                              \/ (o.i = n /\ n >= 1 /\ o.v = Nil)
                              \/ o.i = n + 1
@@ -74,23 +77,56 @@ InDomain(xs, ex, o) ==
     ELSE HoleKeys(ex) = {} /\ ListDomain(xs, o)
 
 (* ---- effect ------------------------------------------------------------- *)
+InList(xs, pos) == pos >= 1 /\ pos <= Len(xs)
 Post(xs, o) ==
     LET n == Len(xs) IN
     CASE o.op = "ins_end" -> (IF o.v = Nil THEN xs ELSE Append(xs, o.v))
-      [] o.op = "ins"     -> (IF o.v = Nil THEN xs ELSE InsertAt(xs, o.pos, o.v))
+      [] o.op = "ins"     -> (IF o.v = Nil \/ o.pos > n + 1 THEN xs ELSE InsertAt(xs, o.pos, o.v))
       [] o.op = "rem_end" -> (IF n = 0 THEN xs ELSE SubSeq(xs, 1, n - 1))
-      [] o.op = "rem"     -> RemoveAt(xs, o.pos)
+      [] o.op = "rem"     -> (IF InList(xs, o.pos) THEN RemoveAt(xs, o.pos) ELSE xs)   \* tremove: outside 1..n nothing happens
       [] o.op = "set"     -> (IF o.i = n + 1 THEN (IF o.v = Nil THEN xs ELSE Append(xs, o.v))
                               ELSE IF o.v = Nil THEN SubSeq(xs, 1, n - 1)
                               ELSE [xs EXCEPT ![o.i] = o.v])
       [] o.op = "fill"    -> [k \in 1..o.n |-> <<"n", (o.a * k) % o.m>>]
-      [] o.op = "setx"    -> xs
-PostEx(ex, o) == IF o.op = "setx" THEN ExSet(ex, o.k, o.v) ELSE ex
+      [] o.op \in {"setx", "insx"} -> xs
+PostEx(xs, ex, o) ==
+    CASE o.op = "setx" -> ExSet(ex, o.k, o.v)
+      [] o.op = "ins" /\ o.pos > Len(xs) + 1 -> ExSet(ex, <<"n", o.pos>>, o.v)   \* tinsert: e = pos, nothing to shift, t[pos] = v
+      [] OTHER -> ex
+
+(* table.insert(t, pos, v) with pos <= 0, literally as tinsert's loop does it:  *)
+(*   for (i = n+1; i > pos; i--) t[i] = t[i-1];  t[pos] = v                      *)
+(* t[1] receives the old t[0]: if that is nil the list is gone (t[1] = nil, the  *)
+(* old elements sit at 2..n+1 behind a hole), otherwise it grows by t[0].        *)
+InsLowLiteral(xs, ex, pos, v) ==
+    LET n == Len(xs)
+        old(k) == TAt(xs, ex, k)
+        keep == {p \in ex : ~(p[1][1] = "n" /\ p[1][2] >= pos /\ p[1][2] <= 0)}
+        low == {<<<<"n", k>>, old(k - 1)>> : k \in {j \in (pos + 1)..0 : old(j - 1) # Nil}}
+        up == IF old(0) = Nil THEN {<<<<"n", i + 1>>, xs[i]>> : i \in 1..n} ELSE {}
+    IN [xs |-> IF old(0) = Nil THEN <<>> ELSE <<old(0)>> \o xs,
+        ex |-> keep \cup low \cup up \cup {<<<<"n", pos>>, v>>}]
+(* ... or without any shift, as insert does for every other position outside the list *)
+InsLowNoShift(xs, ex, pos, v) == [xs |-> xs, ex |-> ExSet(ex, <<"n", pos>>, v)]
+
+(* The admissible post-states <<first, ...>>.  One for every call except        *)
+(* insert at pos <= 0: there the shift of t[0] into t[1] is an artefact of the   *)
+(* reference loop that breaks the list (the manual only says "shifting up other  *)
+(* elements to open space, if necessary"; later Lua versions reject such pos),   *)
+(* so the specification leaves the choice between the literal loop and a plain   *)
+(* store open - and admits nothing else (no element may be lost or moved).       *)
+Posts(xs, ex, o) ==
+    IF o.op = "ins" /\ o.pos <= 0
+    THEN <<InsLowLiteral(xs, ex, o.pos, o.v), InsLowNoShift(xs, ex, o.pos, o.v)>>
+    ELSE <<[xs |-> Post(xs, o), ex |-> PostEx(xs, ex, o)]>>
+
+(* calls that must raise an error (and change nothing) *)
+ExpectErr(o) == o.op = "insx"
 
 (* ---- results: the set of admissible result tuples ------------------------ *)
 Results(xs, o) ==
-    CASE o.op = "rem_end" -> (IF Len(xs) = 0 THEN {<<>>, <<Nil>>} ELSE {<<xs[Len(xs)]>>})
-      [] o.op = "rem"     -> {<<xs[o.pos]>>}
+    CASE o.op = "rem_end" -> (IF Len(xs) = 0 THEN {<<>>} ELSE {<<xs[Len(xs)]>>})     \* tremove: pos = 0 is outside 1..0
+      [] o.op = "rem"     -> (IF InList(xs, o.pos) THEN {<<xs[o.pos]>>} ELSE {<<>>})   \* no values at all
       [] OTHER            -> {<<>>}
 
 (* ---- queries -------------------------------------------------------------- *)
